@@ -74,6 +74,13 @@ const uint8_t* rt_decisions(size_t* n);
 void rt_set_fatal(void (*cb)(const char* cls, const char* detail));
 void rt_fatal(const char* cls, const char* detail);
 int rt_tid();
+// real-time watchdog thread: if a run makes no progress (no scheduler step, no
+// ledger activity) for `seconds`, rt_fatal("hang_wallclock") is raised
+void rt_start_watchdog(unsigned seconds);
+void rt_set_in_run(bool on);
+// sanitizer reports that do not halt (TSan): noted here, checked at run end
+void rt_note_report();
+uint64_t rt_report_count();
 
 // ---- primitives used by the shim -------------------------------------------
 void rt_mutex_init(MutexSt*);
